@@ -32,8 +32,9 @@ def run_one(d, pid, in_repo):
             shutil.copytree("/repo/src", os.path.join(tmp, "src"))
             rc = subprocess.run(["patch", "-s", "-p1", "--dry-run", "-i", os.path.join(p, "patch.diff")], cwd=tmp,
                                 capture_output=True).returncode
-            base = json.load(open(os.path.join(p, "meta.json"))).get("base")
-            if rc != 0 and base:
+            meta_ = json.load(open(os.path.join(p, "meta.json")))
+            base = meta_.get("base")
+            if (rc != 0 or meta_.get("force_base")) and base:
                 # the change was written against an older commit of /repo and conflicts with a later repair:
                 # run it on that commit's sources (compiled artefacts are taken from the working tree)
                 shutil.rmtree(os.path.join(tmp, "src"))
